@@ -5,7 +5,9 @@
    GenerateKey of sm2/sm2.go function by function at the level "field element = integer mod p").
    Generated constants: Gen/SM2Params.v, Gen/P256Tables.v (re-read from /repo on every run).
    Premises are explicit hypotheses: [prime sm2_p] where inverses are needed, [SM2Facts] where the group
-   structure is needed.  The 9-limb arithmetic below fe_of_limbs is NOT proved (see checks/c03.py). *)
+   structure is needed (both are proved elsewhere: coq/Prime/SM2FactsProof.v, coq/Props/SM2Premises.v).
+   The 9-limb 28/29-bit arithmetic below fe_of_limbs IS proved: sections LIMB LAYER / limb pipeline at the end
+   (generated code Gen/P256Limbs.v, proofs EC/Limb*.v). *)
 From Coq Require Import ZArith Znumtheory List Bool Lia.
 From GmsmVerif Require Import Lib.Outcome EC.ECAffine EC.SM2Curve EC.ECAffineProofs EC.JacFormulas
   EC.P256Model EC.P256Proofs EC.P256Instance EC.WnafProofs EC.BaseMultProofs EC.TableCheck EC.C03Final
@@ -238,6 +240,17 @@ Theorem C03_small_multiples_of_kG : SM2Facts ->
 Proof. exact small_multiples_of_kG. Qed.
 Print Assumptions C03_small_multiples_of_kG.
 
+(* NOTE on C03_ScalarMult_is_smul: the conclusion is [k mod n]P - the code reduces the scalar mod n.  It is the group
+   result [k]P whenever [n]P = infinity.  SM2Facts states that for the multiples of G only; for every finite curve
+   point it is the cofactor-1 fact (the same fact as small_multiples_finite), which is not proved here.  For P = [j]G,
+   0 < j < n, both follow from SM2Facts: the result is [k]P = [k j]G for every byte string k, without "mod n". *)
+Theorem C03_ScalarMult_on_multiples_of_G : SM2Facts ->
+  forall j x y (k : list N), 0 < j < sm2_n -> sm2_mul j sm2_G = Some (x, y) ->
+    ScalarMult_model x y k = Ok (encode_point (sm2_mul (os2ip k) (Some (x, y)))) /\
+    sm2_mul (os2ip k) (Some (x, y)) = sm2_mul (os2ip k * j) sm2_G.
+Proof. exact ScalarMult_on_multiples_of_G. Qed.
+Print Assumptions C03_ScalarMult_on_multiples_of_G.
+
 (* ---- 5. base-point multiplication: every byte string, no side condition on the scalar --------------------- *)
 Theorem C03_ScalarBaseMult_is_smul : SM2Facts ->
   forall k : list N, ScalarBaseMult_model k = Ok (encode_point (sm2_base_mul (os2ip k mod sm2_n))).
@@ -327,6 +340,17 @@ Theorem C03_limb_elimination_step_odd : forall t1 t2 t3 t4 t5 t6 t7 t8 t9 t10 : 
   odd_post t1 t2 t3 t4 t5 t6 t7 t8 t9 t10 (gen_rd_step_odd t1 t2 t3 t4 t5 t6 t7 t8 t9 t10).
 Proof. exact gen_rd_step_odd_correct. Qed.
 Print Assumptions C03_limb_elimination_step_odd.
+
+(* non-vacuity of the bound invariant: the normalised limbs delivered by the unpacking satisfy PE, so do its extreme
+   values; the odd invariant PO holds e.g. for the window the even step produces from them (computed) *)
+Example C03_limb_invariant_examples :
+  PE 536870911 268435455 536870911 268435455 536870911 268435455 536870911 268435455 536870911 268435455 /\
+  PE 1610612737 805306366 1073741950 536870911 1073741823 536870911 1073741823 536870911 805306366 268435455 /\
+  PO 805306369 1610612734 536871038 1073741823 536870911 1073741823 536870911 1073741823 536870910 536870911 /\
+  (let '(o0, o1, o2, o3, o4, o5, o6, o7, o8, o9) :=
+     gen_rd_step_even 536870911 268435455 536870911 268435455 536870911 268435455 536870911 268435455 536870911 268435455 in
+   o0 = 0%N /\ PO o1 o2 o3 o4 o5 o6 o7 o8 o9 536870911).
+Proof. vm_compute. repeat split; discriminate. Qed.
 
 (* D36: the step theorem is FALSE for the even step as it was before the repair a3cb9c3 (EC/LimbOld.v, the same
    translator run on the old source): the window (1,0,...,0) is within PE, the old step leaves 2^32-1 in limb 9 and
